@@ -77,22 +77,22 @@ class Ctx:
             return f"{f.module.rel}:{node.lineno}"
         return f"{f.module.rel}:{f.node.lineno}"
 
-    def add(self, status, rule, f, node, msg, facts=None, label=None, nontrivial=True):
+    def add(self, status, rule, f, node, msg, facts=None, label=None, nontrivial=True, construct=None, loc=None):
         if f is not None:
             self.analysed_functions.add(f.qual)
-        ob = Ob(rule=rule, status=status, construct=self._construct(f, node, label), loc=self._loc(f, node),
-                msg=msg, facts=facts or {}, nontrivial=nontrivial)
+        ob = Ob(rule=rule, status=status, construct=construct or self._construct(f, node, label),
+                loc=loc or self._loc(f, node), msg=msg, facts=facts or {}, nontrivial=nontrivial)
         self.obs.append(ob)
         return ob
 
-    def ok(self, rule, f, node, msg, facts=None, label=None, nontrivial=True):
-        return self.add("ok", rule, f, node, msg, facts, label, nontrivial)
+    def ok(self, rule, f, node, msg, facts=None, label=None, nontrivial=True, **kw):
+        return self.add("ok", rule, f, node, msg, facts, label, nontrivial, **kw)
 
-    def violation(self, rule, f, node, msg, facts=None, label=None):
-        return self.add("violation", rule, f, node, msg, facts, label, True)
+    def violation(self, rule, f, node, msg, facts=None, label=None, **kw):
+        return self.add("violation", rule, f, node, msg, facts, label, True, **kw)
 
-    def info(self, rule, f, node, msg, facts=None, label=None):
-        return self.add("info", rule, f, node, msg, facts, label, False)
+    def info(self, rule, f, node, msg, facts=None, label=None, **kw):
+        return self.add("info", rule, f, node, msg, facts, label, False, **kw)
 
     def require(self, cond, msg):
         if not cond:
